@@ -9,9 +9,9 @@ package v2
 import (
 	"bytes"
 	"context"
-	crand "crypto/rand"
 	"crypto/ecdsa"
 	"crypto/elliptic"
+	crand "crypto/rand"
 	"encoding/binary"
 	"encoding/hex"
 	"encoding/json"
@@ -348,8 +348,7 @@ type vConn struct {
 }
 
 func (c *vConn) Send(_ grpc.Protocol, envelope interface{}, _ bool) error {
-	c.sim.send(c.owner, c.peerID, envelope.(*Envelope))
-	return nil
+	return c.sim.send(c.owner, c.peerID, envelope.(*Envelope))
 }
 func (c *vConn) Peer() transport.Peer  { return c.peer }
 func (c *vConn) IsConnected() bool     { return c.connected }
@@ -649,39 +648,40 @@ type vPacket struct {
 }
 
 type vLeak struct {
-	Scenario string `json:"scenario"`
-	Msg      int    `json:"msg"`
-	Kind     string `json:"kind"`
-	Src      int    `json:"src"`
-	Dst      int    `json:"dst"`
-	Tx       int    `json:"tx"`
-	PeerAuth bool   `json:"peer_auth"`
-	PeerDid  string `json:"peer_did"`
-	SrcDid   string `json:"src_did"`
+	Scenario string   `json:"scenario"`
+	Msg      int      `json:"msg"`
+	Kind     string   `json:"kind"`
+	Src      int      `json:"src"`
+	Dst      int      `json:"dst"`
+	Tx       int      `json:"tx"`
+	PeerAuth bool     `json:"peer_auth"`
+	PeerDid  string   `json:"peer_did"`
+	SrcDid   string   `json:"src_did"`
 	Pal      []string `json:"pal"`
-	Allowed  bool   `json:"allowed"`
-	RefTx    int    `json:"ref_tx"`   // for TransactionPayload messages: the transaction the reply is for (-1 unknown)
+	Allowed  bool     `json:"allowed"`
+	RefTx    int      `json:"ref_tx"` // for TransactionPayload messages: the transaction the reply is for (-1 unknown)
 	RefPal   []string `json:"ref_pal"`
 }
 
 type vSim struct {
-	t        *testing.T
-	u        *vUniverse
-	sc       vScenario
-	nodes    []*vNode
-	sent     []*vPacket
-	pending  []int
-	cidName  map[string][2]int
-	cidReal  map[[2]int]string
-	cidNext  map[int]int
-	rnd      *rand.Rand
-	out      *vOut
-	curSent  []*vPacket // packets sent during the current op
-	leaks    []vLeak
-	dc       map[string]*[3]int // bucket -> [attempts, success, exact-when-success]
-	injected map[hash.SHA256Hash]bool // refs of invalid transactions shown to any node
-	deliveries int
+	t           *testing.T
+	u           *vUniverse
+	sc          vScenario
+	nodes       []*vNode
+	sent        []*vPacket
+	pending     []int
+	cidName     map[string][2]int
+	cidReal     map[[2]int]string
+	cidNext     map[int]int
+	rnd         *rand.Rand
+	out         *vOut
+	curSent     []*vPacket // packets sent during the current op
+	leaks       []vLeak
+	dc          map[string]*[3]int       // bucket -> [attempts, success, exact-when-success]
+	injected    map[hash.SHA256Hash]bool // refs of invalid transactions shown to any node
+	deliveries  int
 	restartAt   map[int]int // fair-suffix round -> node to restart before it
+	oversize    []string    // messages the real senders produced that exceed the gRPC message size limit
 	goid        string
 	asyncCh     chan vAsyncReq
 	expectAsync int
@@ -781,10 +781,17 @@ func vSetDigest(m map[hash.SHA256Hash]bool) string {
 	return fmt.Sprintf("#%d:%s", len(m), r16(x))
 }
 
-func (s *vSim) send(src, dst int, env *Envelope) {
+func (s *vSim) send(src, dst int, env *Envelope) error {
 	wire, err := proto.Marshal(env)
 	if err != nil {
 		panic(err)
+	}
+	// what gRPC does with the limit the real client/server are configured with (MaxSendMsgSize / MaxRecvMsgSize =
+	// grpc.MaxMessageSizeInBytes): an oversized message is refused, the sender gets an error (and the stream is reset)
+	if len(wire) > grpc.MaxMessageSizeInBytes {
+		k, _ := s.canon(src, env)
+		s.oversize = append(s.oversize, fmt.Sprintf("%s:%d>%d:%d-bytes(limit %d)", k, src, dst, len(wire), grpc.MaxMessageSizeInBytes))
+		return fmt.Errorf("trying to send message larger than max (%d vs. %d)", len(wire), grpc.MaxMessageSizeInBytes)
 	}
 	kind, text := s.canon(src, env)
 	pk := &vPacket{id: len(s.sent), src: src, dst: dst, wire: wire, kind: kind}
@@ -836,6 +843,7 @@ func (s *vSim) send(src, dst int, env *Envelope) {
 	s.sent = append(s.sent, pk)
 	s.pending = append(s.pending, pk.id)
 	s.curSent = append(s.curSent, pk)
+	return nil
 }
 
 func (s *vSim) sentLine() string {
@@ -1064,6 +1072,8 @@ type vOp struct {
 	Note    string     `json:"note,omitempty"`
 	Case    string     `json:"case,omitempty"`
 	Mode    string     `json:"mode,omitempty"`
+	MaxMsg  int        `json:"maxmsg,omitempty"`
+	Runs    [][3]int   `json:"runs,omitempty"`
 }
 
 func (s *vSim) rangesRefs(rs [][2]int) []hash.SHA256Hash {
@@ -1346,6 +1356,7 @@ func (s *vSim) startScenario(sc vScenario, dir string) {
 	s.injected = map[hash.SHA256Hash]bool{}
 	s.curSent = nil
 	s.restartAt = nil
+	s.oversize = nil
 	s.deliveries = 0
 	grpc.MaxMessageSizeInBytes = sc.MaxMsg
 	_ = os.MkdirAll(dir, 0o755)
@@ -1448,6 +1459,7 @@ type vVerdict struct {
 	InjectedSeen int      `json:"injected_seen"`
 	Features     []string `json:"features"`
 	PostTraffic  int      `json:"post_traffic"`
+	Oversize     []string `json:"oversize"`
 }
 
 // fair suffix: expire stale conversations, then loss-free gossip rounds in every direction until all
@@ -1485,7 +1497,7 @@ func (s *vSim) fairSuffix(maxRounds int, expireEvery int) (rounds int) {
 
 func (s *vSim) verdict(kind string, firstOp int, rounds, maxRounds, startDiff int, startSets []map[hash.SHA256Hash]bool, feats []string) vVerdict {
 	v := vVerdict{Scenario: s.sc.Name, Kind: kind, FirstOp: firstOp, LastOp: s.out.nOps - 1, Rounds: rounds, MaxRounds: maxRounds, StartDiff: startDiff,
-		Deliveries: s.deliveries, InjectedSeen: len(s.injected), Features: feats, Shrunk: []string{}, InvalidIn: []string{}, NotUnion: []string{}}
+		Deliveries: s.deliveries, InjectedSeen: len(s.injected), Features: feats, Oversize: append([]string{}, s.oversize...), Shrunk: []string{}, InvalidIn: []string{}, NotUnion: []string{}}
 	union := map[hash.SHA256Hash]bool{}
 	listings := make([]map[hash.SHA256Hash]bool, len(s.nodes))
 	for i, n := range s.nodes {
